@@ -3,6 +3,7 @@ package props
 import (
 	"context"
 	"encoding/json"
+	"errors"
 	"sort"
 	"testing"
 
@@ -190,7 +191,7 @@ func pokeV2Map(m map[string]types2.AttributeValue, p *picker) {
 	}
 }
 
-var c14Scenarios = []string{"input-after-put", "output-of-get", "output-of-scan", "output-of-query", "update-values-and-output", "kept-output-vs-later-write", "batch-write-input", "delete-old-output"}
+var c14Scenarios = []string{"input-after-put", "output-of-get", "output-of-scan", "output-of-query", "update-values-and-output", "kept-output-vs-later-write", "batch-write-input", "delete-old-output", "condition-failure-item"}
 
 func singletonsIntact() *failure {
 	if !language.TRUE.Value || language.FALSE.Value || !language.UNDEFINED.IsUndefined {
@@ -361,6 +362,16 @@ func runC14(c c14Case, pokes *int) *failure {
 		cur, _ := cl.GetItem(ctx, &ddb2.GetItemInput{TableName: aws.String("tbl"), Key: drv.ToV2Item(key)})
 		pokeV2Map(cur.Item, p)
 		return differs("a previously returned item after later writes", drv.FromV2Item(out.Item), kept)
+	case "condition-failure-item":
+		_, err := cl.UpdateItem(ctx, &ddb2.UpdateItemInput{TableName: aws.String("tbl"), Key: drv.ToV2Item(key), UpdateExpression: aws.String("SET upd = :v"),
+			ConditionExpression: aws.String("attribute_not_exists(pk)"), ReturnValuesOnConditionCheckFailure: types2.ReturnValuesOnConditionCheckFailureAllOld,
+			ExpressionAttributeValues: drv.ToV2Item(model.Item{":v": model.Str("x")})})
+		var cf *types2.ConditionalCheckFailedException
+		if !errors.As(err, &cf) || cf.Item == nil {
+			return nil
+		}
+		pokeV2Map(cf.Item, p)
+		return differs("after mutating the item carried by a ConditionalCheckFailedException", get(), want)
 	case "delete-old-output":
 		out, err := cl.DeleteItem(ctx, &ddb2.DeleteItemInput{TableName: aws.String("tbl"), Key: drv.ToV2Item(key), ReturnValues: types2.ReturnValueAllOld})
 		if err != nil {
